@@ -207,6 +207,10 @@ def _replay_chunk(arg):
         exp = st.get("exp")
         if hasattr(ad, "normalize"):
           obs = ad.normalize(obs, exp)
+        if canon(obs) != canon(exp) and hasattr(ad, "accept_alt") and ad.accept_alt(obs, st):
+          # a permitted alternative outcome of a nondeterministic spec step
+          res = ("diverted", bi, i, None)
+          break
         if canon(obs) == canon(exp):
           continue
         ok_set = allowed.get(keys[i], ())
